@@ -239,6 +239,8 @@ def run_pipeline(name, binp, opsfile, workdir, tag, timeout=3000):
             res['errors'].append(f'strace merge failed: {e!r}')
             shutil.copy(raw, real)
         shutil.rmtree(rundir, ignore_errors=True)
+        if os.environ.get('VERIF_KEEP_TRACE'):
+            shutil.copy(trace, trace + '.keep')
         os.unlink(trace)
     else:
         with open(opsfile) as fi, open(real, 'w') as fo:
@@ -320,13 +322,17 @@ def merge_strace(raw, trace, out):
             handle(rest)
     k = 0
     idx = {}
+    gen = {}
+    dead = set()
     casedir = None
     def role(path):
         m = _REC.search(path)
         if not m:
             return 'other:' + os.path.basename(path)
         d = 'c' if m.group(1) else ''
-        key = (d, m.group(2))
+        # a time stamp can be reused once a discarded recording's files are gone (same millisecond):
+        # every incarnation of a stamp is a recording of its own
+        key = (d, m.group(2), gen.get((d, m.group(2)), 0))
         if key not in idx:
             idx[key] = sum(1 for kk in idx if kk[0] == d)
         kind = {None: 'F', '.temp': 'T', '.temp.tmp': 'S'}[m.group(3)]
@@ -340,6 +346,8 @@ def merge_strace(raw, trace, out):
                 k += 1
                 if line.startswith('> case '):
                     idx = {}
+                    gen = {}
+                    dead = set()
                 fo.write(line + '\n')
                 last = None
                 if line.startswith('> case '):
@@ -352,8 +360,15 @@ def merge_strace(raw, trace, out):
                         casedir = bd
                     if bd != casedir:
                         continue
+                    if ev[1].endswith('.cptv.temp') and ev[0] in ('unlink', 'creat'):
+                        mm = _REC.search(ev[1])
+                        kk = ('c' if mm.group(1) else '', mm.group(2))
+                        if ev[0] == 'unlink':
+                            dead.add(kk)                       # the discarded recording is gone: the stamp is free again
+                        elif kk in dead:
+                            dead.discard(kk)
+                            gen[kk] = gen.get(kk, 0) + 1       # same millisecond, new recording
                     txt = 'sys ' + ev[0] + ' ' + ' '.join(role(x) for x in ev[1:])
-
                     if ev[0] == 'write' and txt == last:
                         continue
                     last = txt
@@ -608,6 +623,24 @@ def main(argv):
         stream_reports[sname] = rep
 
     # 3. verdict
+    transients = []
+    if not replay:
+        kept = []
+        for item in diverged:
+            sname, d, c, binp, proj_rx = item
+            if STREAMS[sname].get('confirm') and len(kept) == 0:
+                ops = ops_of_case(c)
+                again = False
+                for _ in range(3):
+                    _pr, _div, _fails = single_case_eval(sname, binp, prop, ops, workdir, proj_rx, tag='confirm')
+                    if _div:
+                        again = True
+                        break
+                if not again:
+                    transients.append(dict(stream=sname, divergence=d, ops=len(ops)))
+                    continue
+            kept.append(item)
+        diverged = kept
     out_lines = []
     n_viol = 0
     seen_reason = set()
@@ -621,6 +654,17 @@ def main(argv):
             continue
         seen_reason.add(key)
         ops = ops_of_case(c) if c else []
+        if ops and not replay and STREAMS[sname].get('confirm'):
+            # streams that involve the wall clock / the scheduler: a failure must reproduce when the case is re-run alone
+            again = False
+            for _ in range(3):
+                _pr, _div, _fails = single_case_eval(sname, binp, prop, ops, workdir, proj_rx, tag='confirm')
+                if any(match_known(prop, sname, x, known) is None for x in _fails):
+                    again = True
+                    break
+            if not again:
+                transients.append(dict(stream=sname, failure=fl['line'], ops=len(ops)))
+                continue
         small = shrink(sname, binp, prop, ops, workdir, proj_rx, 'monitor') if ops and not replay else ops
         pr, div, fails = single_case_eval(sname, binp, prop, small, workdir, proj_rx, tag='final') if small else (None, [], [])
         path = write_replay(prop, dict(property=prop, kind='monitor-failure-on-implementation', stream=sname,
@@ -680,6 +724,7 @@ def main(argv):
             broken_obligations=obligations_broken,
             broken_streams=stream_broken,
             known_findings_hit=sorted(known_hits),
+            unconfirmed_transients=transients,
             exhaustive=False,
         ),
         assumptions=spec.get('assumptions', []),
